@@ -64,6 +64,18 @@ CLAIMED = {
              "normalised (textbook; numerically checked in the bounded layer); joint configurations: the 9 listed class sequences with "
              "component sizes <= 2; sorted() contract assumed; draws' sample routing is bounded only",
         ref="3/C06"),
+    "C07": dict(
+        text="Proof of the integrator's structure for every dimension and step count: the real standard/bounded leapfrog bodies "
+             "perform exactly half-kick, (drift, [fold, matching momentum flip], kick)*, drift, [fold, flip], half-kick with "
+             "h = inv_temp*epsilon, every gradient taken at the current position and every velocity at the current momentum; "
+             "scalar/vector masses are linear, commute with sign flips, draw momenta with variance = mass and the kinetic energy "
+             "is r.M^-1.r/2; the wall map returns the symmetric fold and reverses the momentum iff the fold count is odd; the "
+             "finite-difference gradient is a difference quotient with non-zero step taken inside the bounds. Bounded: numeric "
+             "reversibility, Jacobian determinant, energy order, momentum law, gradient accuracy on the real chains.",
+        note="palindromic composition of shear maps => reversible, volume preserving, O(eps^2) energy error is a meta-theorem (assumed); "
+             "MatrixMass momentum law (Cholesky algebra) and the O(eps^2) energy claim are bounded only; matrix mass with bounds is a "
+             "documented finding candidate (sign flips do not commute with a full inverse mass) and is excluded from the bounded family",
+        ref="3/C07"),
     "C08": dict(
         text="Proof: for every number of chains, temperature ladder and proposed pair, the real swap() code exchanges iff "
              "u <= exp((1/T_i-1/T_j)(L_j-L_i)) with L the untempered log-densities, hands chain i exactly (x_j, L_j) and chain j (x_i, L_i), "
